@@ -1032,8 +1032,8 @@ def quantize_note_sequence(note_sequence, steps_per_quarter):
            time_signatures[0].time))
 
     for time_signature in time_signatures[1:]:
-      if (time_signature.numerator != qns.time_signatures[0].numerator or
-          time_signature.denominator != qns.time_signatures[0].denominator):
+      if (time_signature.numerator != time_signatures[0].numerator or
+          time_signature.denominator != time_signatures[0].denominator):
         raise MultipleTimeSignatureError(
             'NoteSequence has at least one time signature change from %d/%d to '
             '%d/%d at %.2f seconds.' %
@@ -1074,7 +1074,7 @@ def quantize_note_sequence(note_sequence, steps_per_quarter):
                                          tempos[0].qpm, tempos[0].time))
 
     for tempo in tempos[1:]:
-      if tempo.qpm != qns.tempos[0].qpm:
+      if tempo.qpm != tempos[0].qpm:
         raise MultipleTempoError(
             'NoteSequence has at least one tempo change from %.1f qpm to %.1f '
             'qpm at %.2f seconds.' % (tempos[0].qpm, tempo.qpm, tempo.time))
